@@ -16,6 +16,18 @@
 #include <gmssl/x509.h>
 #include <gmssl/error.h>
 
+// ctime() answers through storage shared by all threads: use the reentrant form
+static const char *time_str(const time_t *tv, char buf[32])
+{
+#ifdef WIN32
+	if (ctime_s(buf, 32, tv) != 0) return "(invalid time)\n";
+#else
+	if (!ctime_r(tv, buf)) return "(invalid time)\n";
+#endif
+	return buf;
+}
+
+
 
 const char *tls_record_type_name(int type)
 {
@@ -329,7 +341,7 @@ int tls_random_print(FILE *fp, const uint8_t random[32], int format, int indent)
 	tls_uint32_from_bytes((uint32_t *)&gmt_unix_time, &cp, &len);
 	format_print(fp, format, indent, "Random\n");
 	indent += 4;
-	format_print(fp, format, indent, "gmt_unix_time : %s", ctime(&gmt_unix_time));
+	format_print(fp, format, indent, "gmt_unix_time : %s", time_str(&gmt_unix_time, (char[32]){0}));
 	format_bytes(fp, format, indent, "random", random + 4, 28);
 	return 1;
 }
